@@ -21,7 +21,7 @@ func runC12(c *an.Ctx) string {
 	r123Lookups(c)
 	r124Validators(c)
 	r067InheritanceAgreement(c, "R12.6") // the validator checks the requirements the generators will use
-	r06SchemeKeyed(c, "R12.5") // validator and consumers look API keys up under the same scheme-qualified key
+	r06SchemeKeyed(c, "R12.5")           // validator and consumers look API keys up under the same scheme-qualified key
 	return explanationC12
 }
 
